@@ -269,8 +269,102 @@ class ErrorRateCmdH(Harness):
         return dict(outputs=[], failures=[l for l, cnd in viol if truth(cnd)])
 
 
+class SubsetCmdH(Harness):
+    """subset-torch-spect-data-dir run in-process on a real temporary directory: the count n and the feature lengths are picked by the solver (forks),
+    the command then runs concretely.  Asserted: exactly the documented utterances are extracted (first/last by id, shortest/longest by length then id,
+    or the listed ones), every extracted file is byte-identical to its source, files of other utterances are absent, alignments/references that do not
+    exist in the source are ignored.  cfg: U, criterion, lens (bool: symbolic lengths)"""
+    functions = ["pydrobert.torch.command_line.subset_torch_spect_data_dir", "pydrobert.torch.command_line._copy_spect_data_dir_do_work",
+                 "pydrobert.torch.command_line._DirectoryDataset"]
+
+    def _run(self, n, lens):
+        import pydrobert.torch.command_line as CL
+        c = self.cfg
+        U = c["U"]
+        root = tempfile.mkdtemp(prefix="verif_c17_")
+        try:
+            src, dest = os.path.join(root, "src"), os.path.join(root, "dest")
+            ids = [f"u{chr(ord('a') + i)}" for i in range(U)]
+            for sub in ("feat", "ali", "ref"):
+                os.makedirs(os.path.join(src, sub))
+            for i, u in enumerate(ids):
+                torch.save(torch.full((lens[i], 2), float(i)), os.path.join(src, "feat", u + ".pt"))
+                if i % 2 == 0:      # alignments only for every other utterance, references for all but the first
+                    torch.save(torch.full((lens[i],), i, dtype=torch.long), os.path.join(src, "ali", u + ".pt"))
+                if i > 0:
+                    torch.save(torch.tensor([i, i + 1]), os.path.join(src, "ref", u + ".pt"))
+            crit = c["criterion"]
+            if crit == "utt-list":
+                chosen = [ids[i] for i in range(U) if (n >> i) & 1] + ["not-there"]
+                flags = ["--utt-list"] + chosen
+            else:
+                flags = [f"--{crit}", str(n)]
+
+            class SimpleDL:
+                def __init__(self, ds, batch_size=1, num_workers=0, collate_fn=None, **kw):
+                    self.ds, self.collate_fn = ds, collate_fn
+
+                def __iter__(self):
+                    for i in range(len(self.ds)):
+                        yield self.collate_fn([self.ds[i]])
+
+            shim = Shim(torch, utils=Shim(torch.utils, data=Shim(torch.utils.data, DataLoader=SimpleDL)))
+            with patched(CL, torch=shim):
+                rc = CL.subset_torch_spect_data_dir([src, dest, "--copy", "--num-workers", "0"] + flags)
+            got = {}
+            for sub in ("feat", "ali", "ref"):
+                d = os.path.join(dest, sub)
+                got[sub] = {}
+                for fn in (sorted(os.listdir(d)) if os.path.isdir(d) else []):
+                    with open(os.path.join(d, fn), "rb") as f, open(os.path.join(src, sub, fn), "rb") if os.path.exists(os.path.join(src, sub, fn)) else open(os.devnull, "rb") as g:
+                        got[sub][fn] = f.read() == g.read()
+            have = {sub: set(os.listdir(os.path.join(src, sub))) for sub in ("feat", "ali", "ref")}
+            return rc, ids, got, have
+        finally:
+            shutil.rmtree(root, ignore_errors=True)
+
+    def _judge(self, n, lens, res):
+        c = self.cfg
+        rc, ids, got, have = res
+        crit = c["criterion"]
+        if crit == "first-n":
+            exp = sorted(ids)[:n]
+        elif crit == "last-n":
+            exp = sorted(ids)[len(ids) - n:] if n <= len(ids) else sorted(ids)
+        elif crit == "shortest-n":
+            exp = [u for _, u in sorted((lens[i], ids[i]) for i in range(len(ids)))][:n]
+        elif crit == "longest-n":
+            exp = [u for _, u in sorted((-lens[i], ids[i]) for i in range(len(ids)))][:n]
+        else:
+            exp = [ids[i] for i in range(len(ids)) if (n >> i) & 1]
+        viol = [(f"command returned {rc}", rc not in (0, None))]
+        for sub in ("feat", "ali", "ref"):
+            want = sorted(u + ".pt" for u in exp if u + ".pt" in have[sub])
+            viol.append((f"{sub}/: extracted {sorted(got[sub])} instead of {want} ({crit} {n}, lengths {lens})", sorted(got[sub]) != want))
+            for fn, same_bytes in got[sub].items():
+                viol.append((f"{sub}/{fn} differs from its source", not same_bytes))
+        return viol
+
+    def symbolic(self, eng):
+        c = self.cfg
+        U = c["U"]
+        hi = (2 ** U - 1) if c["criterion"] == "utt-list" else U + 1
+        n = eng.decide_int(eng.int("n", 0, hi))
+        lens = [eng.decide_int(eng.int(f"L{i}", 1, 3)) if c.get("lens") else 2 + (i % 2) for i in range(U)]
+        with E.no_mode():
+            res = self._run(n, lens)
+        return dict(outputs=[], viol=self._judge(n, lens, res))
+
+    def concrete(self, vals):
+        c = self.cfg
+        U = c["U"]
+        n = vals["n"]
+        lens = [vals[f"L{i}"] if c.get("lens") else 2 + (i % 2) for i in range(U)]
+        return dict(outputs=[], failures=[l for l, cnd in self._judge(n, lens, self._run(n, lens)) if truth(cnd)])
+
+
 META = dict(
-    functions=AliTokenH.functions + ErrorRateCmdH.functions,
+    functions=AliTokenH.functions + ErrorRateCmdH.functions + SubsetCmdH.functions,
     files=["src/pydrobert/torch/command_line.py"],
     explanation=(
         "The two real entry points torch-ali-data-dir-to-torch-token-data-dir and torch-token-data-dir-to-torch-ali-data-dir are run in-process "
@@ -281,15 +375,18 @@ META = dict(
         "compute-torch-token-data-dir-error-rates runs in-process on symbolic ref/ and hyp/ token tensors (the command reads tokens with .item(), each read forks "
         "through the solver over the alphabet, so every token assignment within the bound is a path); asserted per path: the printed total equals the Levenshtein "
         "edits after --replace-then---ignore filtering divided by the filtered reference length (per-utterance figures with --per-utt, C02's 0/1 convention for an "
-        "empty reference, mean distance with --distances), identically for every --batch-size."),
-    bounds=dict(error_rates="quick: 2 utterances, refs/hyps <= 2 tokens over <= 3 ids, batch sizes {1,2,100}, one ignore / one replace list; thorough: up to 3 utterances, <= 3 tokens",
+        "empty reference, mean distance with --distances), identically for every --batch-size.  subset-torch-spect-data-dir runs on a real temporary directory with the "
+        "count and the feature lengths picked by the solver (forks): exactly the documented utterances are extracted for --first-n/--last-n/--shortest-n/--longest-n/"
+        "--utt-list, extracted files are byte-identical to their sources, alignments/references missing in the source are ignored."),
+    bounds=dict(subset="quick: 3 utterances, n in 0..4, lengths 1..3; thorough: 4 utterances",
+                error_rates="quick: 2 utterances, refs/hyps <= 2 tokens over <= 3 ids, batch sizes {1,2,100}, one ignore / one replace list; thorough: up to 3 utterances, <= 3 tokens",
                 quick="2 utterances of <= 4 frames over 3 labels; file prefix/suffix in {default, 'p_'/'.pt', ''/''}; an unrelated file present",
                 thorough="3 utterances of <= 5 frames over 3 labels; same prefix/suffix grid"),
     assumptions=["files on disk are placeholders; tensor content lives in an in-memory store behind torch.load/torch.save", "single-process mode only",
                  "error-rate command: DataLoader(batch_size=1, num_workers=0) replaced by a plain loop over the data set (its base-seed draw is irrelevant here); "
                  "all-references-empty corpora (0/0) excluded"],
     outside=["worker pools (imap_unordered, spawn): completion orders are not explored", "trn/ctm/TextGrid command plumbing (library level partly in C11)",
-             "error-rate command with --id2token text plumbing and unequal costs (C02 covers the kernel)", "subset and statistics commands (file copying / shapes only)"],
+             "error-rate command with --id2token text plumbing and unequal costs (C02 covers the kernel)", "subset: ratio and random criteria, hard links/symlinks, --only; statistics commands (shapes only)"],
 )
 
 M_ = "checks.c17"
@@ -306,6 +403,8 @@ def tasks(tier):
     # --replace is processed before --ignore: 2 -> 1 makes the ignore entry 2 moot; 1 -> 2 sends 1 into the ignored id
     ts.append(task(PROP, M_, "ErrorRateCmdH", R=[2, 1], H=[2, 1], toks=[0, 1, 2], batch_sizes=[1, 100], ignore=[2], replace=[(2, 1)], per_utt=True, nvalidate=1))
     ts.append(task(PROP, M_, "ErrorRateCmdH", R=[2, 2], H=[1, 1], toks=[0, 1, 2], batch_sizes=[2, 1], ignore=[2], replace=[(1, 2)], distances=True, nvalidate=1))
+    for crit, lens in (("first-n", False), ("last-n", False), ("utt-list", False), ("shortest-n", True), ("longest-n", True)):
+        ts.append(task(PROP, M_, "SubsetCmdH", U=3 if q else 4, criterion=crit, lens=lens, nvalidate=1))
     if not q:
         ts.append(task(PROP, M_, "ErrorRateCmdH", R=[2, 1, 1], H=[1, 2, 1], toks=[0, 1], batch_sizes=[1, 2, 3], nvalidate=1))
         ts.append(task(PROP, M_, "ErrorRateCmdH", R=[2, 1], H=[2, 2], toks=[0, 1, 2], batch_sizes=[1, 2], ignore=[0], replace=[(2, 0)], nvalidate=1))
